@@ -183,7 +183,7 @@ def flow_forces_add(ctx, n_nodes):
 
 
 @scenario
-def fluid_plus_body_force_is_zero(ctx, body_kind, dim):
+def fluid_plus_body_force_is_zero(ctx, body_kind, dim, layout="c"):
     """one __call__ (spread to the fluid) + compute_flow_forces_and_torques (transfer to the body) on a symbolic flow:
     dx^d * sum(eul_grid_forcing) + sum(body forces) = 0 (tolerance: the concrete weights sum to 1 up to rounding)"""
     _, _, sps, _ = sopht_modules()
@@ -203,6 +203,11 @@ def fluid_plus_body_force_is_zero(ctx, body_kind, dim):
         body = B.make_body("sphere")
         gcls, gkw = spb.SphereForcingGrid, {"num_forcing_points_along_equator": 6}
     E = ctx.zeros((dim, *grid))
+    if layout == "interior":
+        # the flow solver's forcing field as the interior window of a ghost-padded allocation (not C-contiguous)
+        E = ctx.zeros((dim, *(n_ + 2 for n_ in grid)))[(slice(None),) + tuple(slice(1, -1) for _ in grid)]
+    elif layout == "component_last":
+        E = np.moveaxis(ctx.zeros((*grid, dim)), -1, 0)
     u = ctx.array("u", (dim, *grid))
     bound_vars(ctx, u)
     if body_kind == "rod":
@@ -285,6 +290,9 @@ def main():
     chk.add(flow_forces_add, n_nodes=3)
     for bk, dim in (("rod", 3), ("rod", 2), ("cylinder", 2), ("sphere", 3)):
         chk.add(fluid_plus_body_force_is_zero, body_kind=bk, dim=dim)
+    # the caller's Eulerian forcing field need not be C-contiguous
+    chk.add(fluid_plus_body_force_is_zero, body_kind="cylinder", dim=2, layout="interior")
+    chk.add(fluid_plus_body_force_is_zero, body_kind="rod", dim=2, layout="component_last")
     chk.bounds = [f"rods with n_elems in {ne_list}, taper profiles {tapers}, surface density 4 (thorough: 6), caps on/off; cylinder (5 / 2xN markers), sphere (equator 6), plane (3xN)",
                   "poses: node positions, nine director entries per element (no orthonormality assumed), velocities, angular velocities, radii>0, masses>0, tangents, marker forces, prior force/torque contents all symbolic"]
     chk.outside = ["more elements / denser grids (the transfer loops are per element)", "rounding", "PyElastica's time stepper"]
